@@ -13,6 +13,7 @@ import (
 	jobSource "github.com/mimiro-io/datahub/internal/jobs/source"
 	"github.com/mimiro-io/datahub/internal/server"
 	"github.com/mimiro-io/datahub/internal/verifrt/engine"
+	"github.com/mimiro-io/datahub/internal/verifrt/model"
 	"github.com/mimiro-io/datahub/internal/verifrt/vsync"
 )
 
@@ -80,6 +81,9 @@ type JobsScenario struct {
 	// Pool: tickets per pool for this scenario (0 = the world's 1/1). With more than one ticket the pool bound
 	// no longer hides a failing "one run per id" check.
 	Pool int `json:"pool,omitempty"`
+	// JSWorkers: the jobs get an identity javascript transform with this Parallelism and a log error handler, keep their
+	// real source (dataset A with four entities, one batch): the transform workers of one batch run next to each other
+	JSWorkers int `json:"js_workers,omitempty"`
 }
 
 type JobsOp struct {
@@ -114,10 +118,32 @@ func c11RunSched(sc *JobsScenario, prefix []int, horizon int) *vsync.Execution {
 	st := &probeState{active: map[string]int{}}
 	var jobsL []*job
 	var ids []string
+	if sc.JSWorkers > 0 {
+		pool := model.Pool(0)
+		var ents []server.VEnt
+		for i := 1; i <= 4; i++ {
+			ents = append(ents, server.VEnt{ID: fmt.Sprintf("e%d", i), C: model.PoolIndex(pool, "v1")})
+		}
+		if err := h.ApplyWrite(server.VOp{K: "batch", DS: "A", Ents: ents}); err != nil {
+			return &vsync.Execution{HarnessErr: err.Error()}
+		}
+	}
 	for ji, jt := range sc.Jobs {
-		jb, jc, err := jw.newJob(h, JobSpec{Sources: []string{"A"}, Sink: "Z", JobType: jt, BatchSize: 1})
+		sp := JobSpec{Sources: []string{"A"}, Sink: "Z", JobType: jt, BatchSize: 1}
+		if sc.JSWorkers > 0 {
+			sp.BatchSize = 4
+			sp.JS = `function transform_entities(entities) { return entities; }`
+			sp.Parallelism = sc.JSWorkers
+			sp.OnError = []map[string]interface{}{{"errorHandler": "log"}}
+		}
+		jb, jc, err := jw.newJob(h, sp)
 		if err != nil {
 			return &vsync.Execution{HarnessErr: "newJob: " + err.Error()}
+		}
+		if sc.JSWorkers > 0 {
+			jobsL = append(jobsL, jb)
+			ids = append(ids, jc.ID)
+			continue
 		}
 		jb.pipeline.spec().source = &probeSource{label: fmt.Sprintf("job%d", ji), jobID: jc.ID, full: jt == "fullsync", probes: st}
 		jobsL = append(jobsL, jb)
@@ -254,6 +280,8 @@ func c11Sched(r *engine.Run) {
 		{Name: "J4-cron-vs-manual", Jobs: []string{"incremental"}, Threads: [][]JobsOp{{{K: "run", J: 0}}, {{K: "manual", J: 0}}}},
 		{Name: "J5-fullsync-twice-retry", Jobs: []string{"fullsync"}, Threads: [][]JobsOp{{{K: "run", J: 0}}, {{K: "run", J: 0}}}},
 		{Name: "J9-two-fullsync-jobs-one-ticket", Jobs: []string{"fullsync", "fullsync"}, Threads: [][]JobsOp{{{K: "run", J: 0}}, {{K: "run", J: 1}, {K: "status"}}}},
+		// the transform workers of one batch: a javascript transform behind the log handler's wrapper
+		{Name: "J10-parallel-javascript-workers-with-log-handler", Jobs: []string{"incremental"}, JSWorkers: 2, Threads: [][]JobsOp{{{K: "run", J: 0}}}},
 		{Name: "J7-same-job-twice-two-tickets", Jobs: []string{"incremental"}, Pool: 2, Threads: [][]JobsOp{{{K: "run", J: 0}}, {{K: "run", J: 0}}}},
 		{Name: "J8-cron-vs-manual-two-tickets", Jobs: []string{"incremental"}, Pool: 2, Threads: [][]JobsOp{{{K: "run", J: 0}}, {{K: "manual", J: 0}}}},
 		{Name: "J6-incr-and-full-and-status", Jobs: []string{"incremental", "fullsync"}, Threads: [][]JobsOp{{{K: "run", J: 0}}, {{K: "run", J: 1}}, {{K: "status"}, {K: "kill", J: 1}}}},
